@@ -178,6 +178,11 @@ func (commander *Commander) CreateTransaction(ctx context.Context, parameters Pa
 }
 
 func (commander *Commander) SaveMeta(ctx context.Context, parameters Parameters, targetType string, targetID interface{}, m metadata.Metadata) error {
+	if m == nil {
+		// (a request body of null decodes to a nil map without error) logged as "metadata": null, the store's
+		// metadata || 'null' would turn the stored object into an array that nothing can read any more
+		m = metadata.Metadata{}
+	}
 	execContext := newExecutionContext(commander, parameters)
 	savedLog, err := execContext.run(ctx, func(executionContext *executionContext) (*ledger.ChainedLog, chan struct{}, error) {
 		var (
